@@ -459,7 +459,11 @@ func errorExits(fn *ssa.Function, errIdx int) []string {
 			out = append(out, "always")
 			continue
 		}
-		out = append(out, exitGuardText(gs[0]))
+		t := exitGuardText(gs[0])
+		if strings.Contains(t, "next(range(") || strings.Contains(t, "phi{") {
+			t = "after the loop"
+		}
+		out = append(out, t)
 	}
 	sort.Strings(out)
 	return out
@@ -484,10 +488,20 @@ var errorExitTable = []struct {
 	{"C15", "controller/legacy", "k8scache.GetService", 1, []string{`buildResourceName != nil`, `buildResourceName == nil`}, "a dropped or inverted test lets a missing, foreign or malformed object through (or rejects a good one, which falls back to the default certificate / drops the declaration)"},
 	{"C15", "controller/services", "c.GetTerminatingPods", 1, []string{`List != nil`, `buildLabelSelector != nil`}, "a dropped or inverted test lets a missing, foreign or malformed object through (or rejects a good one, which falls back to the default certificate / drops the declaration)"},
 	{"C15", "controller/legacy", "k8scache.GetTerminatingPods", 1, []string{`!c.listers.hasPodLister`, `List != nil`, `buildLabelSelector != nil`}, "a dropped or inverted test lets a missing, foreign or malformed object through (or rejects a good one, which falls back to the default certificate / drops the declaration)"},
+	{"C12", "haproxy", "instance.HAProxyUpdate", 0, []string{`&i.options.ReloadQueue == nil`, `WriteBackendMaps != nil`, `WriteFrontendMaps != nil`, `WriteTCPServicesMaps != nil`, `writeConfig != nil`, `writeCrtLists != nil`}, "a failed step that is not reported is never retried: the files on disk and the running process stay behind the model"},
+	{"C12", "haproxy", "instance.Reload", 0, []string{`reloadHAProxy != nil`}, "a failed step that is not reported is never retried: the files on disk and the running process stay behind the model"},
+	{"C12", "haproxy", "instance.writeConfig", 0, []string{`Write != nil`, `Write != nil`, `Write != nil`, `Write == nil`, `WriteOutput != nil`, `WriteOutput != nil`}, "a failed step that is not reported is never retried: the files on disk and the running process stay behind the model"},
+	{"C12", "haproxy", "instance.writeCrtLists", 0, []string{`WriteOutput != nil`}, "a failed step that is not reported is never retried: the files on disk and the running process stay behind the model"},
+	{"C12", "haproxy", "config.WriteFrontendMaps", 0, []string{`WriteOutput != nil`, `writeMaps != nil`}, "a failed step that is not reported is never retried: the files on disk and the running process stay behind the model"},
+	{"C12", "haproxy", "config.WriteBackendMaps", 0, []string{`after the loop`}, "a failed step that is not reported is never retried: the files on disk and the running process stay behind the model"},
+	{"C12", "haproxy", "config.WriteTCPServicesMaps", 0, []string{`after the loop`}, "a failed step that is not reported is never retried: the files on disk and the running process stay behind the model"},
+	{"C12", "haproxy", "writeMaps", 0, []string{`WriteOutput != nil`}, "a failed step that is not reported is never retried: the files on disk and the running process stay behind the model"},
 	{"C17", "controller/legacy", "k8scache.GetTLSSecretContent", 1, []string{`Decode == nil`, `GetSecret != nil`, `ParseCertificate != nil`, `missing lookup "tls.crt"`}, "any other error makes the signer take a valid certificate as missing and request it again on every check"},
 }
 
 func init() {
+	addRule("C12", &core.Rule{ID: "C12.error-exits", Floor: 8, Run: func(c *core.Ctx) { errorExitRule(c, "C12") },
+		Doc: "The update path reports a failure exactly where a step failed: HAProxyUpdate, Reload, writeConfig, writeCrtLists and the three map writers return an error under the reviewed tests (each fallible step's `err != nil`) and nowhere else; an inverted or dropped test turns a failed write into success (no retry) or a good one into an endless retry."})
 	addRule("C15", &core.Rule{ID: "C15.reader-exits", Floor: 12, Run: func(c *core.Ctx) { errorExitRule(c, "C15") },
 		Doc: "The readers of the cache facades (both runtimes) fail exactly for the reviewed reasons: unsupported protocol, file missing, name not resolvable / not permitted, object not found, key missing, content not parseable. A test that is dropped or inverted changes the list."})
 	addRule("C17", &core.Rule{ID: "C17.reader-exits", Floor: 2, Run: func(c *core.Ctx) { errorExitRule(c, "C17") },
